@@ -278,6 +278,7 @@ def flatten(F, inline_ids):
     G = object.__new__(Facts)
     G.__dict__.update({k: v for k, v in F.__dict__.items() if k != 'bodies' and not k.startswith('_')})  # no per-Facts caches
     G.bodies = {}
+    G.raw_facts = F  # the helpers that are inlined everywhere are still examined as the functions they are (rules_checkers F6 / F8)
     cache = {}
     report = {}
     for i, b in F.bodies.items():
@@ -706,10 +707,34 @@ def desugar_dict(F, d, flat_cache=None):
         name = fn.get('name')
         is_cons = tr == 'std::iter::Iterator' and name in CONSUMERS and len(t['args']) == 2
         is_ext = tr == 'std::iter::Extend' and name == 'extend' and len(t['args']) == 2
-        if not (is_cons or is_ext):
+        # `it.map(f).collect()` / `it.filter_map(f).collect()` with a closure that has side effects: the loop that runs f on every item
+        # (what is collected is an opaque value)
+        is_coll = tr == 'std::iter::Iterator' and name == 'collect' and len(t['args']) == 1
+        up_bb = None
+        if is_coll:
+            cur = nd or d
+            cp = t['args'][0].get('m') or t['args'][0].get('c')
+            udef = _single_def(cur, cp['l']) if cp is not None and not cp['p'] else None
+            if udef is None or udef[1] != 'term' or _uses(cur, cp['l']) > 2:
+                continue
+            ut = cur['blocks'][udef[0]]['term']
+            ufn = ut['f'].get('fn', {})
+            if not (ufn.get('trait') == 'std::iter::Iterator' and ufn.get('name') in ('map', 'filter_map') and len(ut['args']) == 2):
+                continue
+            ucb, ukind = _callable_of(F, cur, ut['args'][1])
+            if ucb is None or not _mutates(ucb.d):
+                continue
+            up_bb = udef[0]
+        if not (is_cons or is_ext or is_coll):
             continue
         cur = nd or d
-        if is_cons:
+        if is_coll:
+            cb, kind = ucb, ukind
+            it_op = ut['args'][0]
+            push_fn = None
+            name = 'for_each'
+            t = dict(t, args=[it_op, ut['args'][1]])
+        elif is_cons:
             cb, kind = _callable_of(F, cur, t['args'][1])
             if cb is None:
                 continue
@@ -830,7 +855,9 @@ def desugar_dict(F, d, flat_cache=None):
         dl = dest['l'] if not dest['p'] else None
         if dl is None:
             continue
-        if is_ext or name == 'for_each':
+        if is_coll:
+            X = exit_block([assign(dl, {'k': 'use', 'op': {'k': {'ty': '_', 'v': '<collected>'}}})])
+        elif is_ext or name == 'for_each':
             X = exit_block([assign(dl, {'k': 'use', 'op': unit})])
         elif name == 'try_for_each':
             if res_ty.startswith('std::result::Result'):
@@ -910,6 +937,8 @@ def desugar_dict(F, d, flat_cache=None):
             if not (by_ref and pred is None):
                 B[H]['stmts'] = [assign(r_local, {'k': 'ref', 'mut': True, 'pl': {'l': sp['l'], 'p': sp['p']}})]
             B[bb] = dict(B[bb], term={'k': 'goto', 't': H})
+            if is_coll:  # the adaptor call itself is dropped: its source iterator is consumed by the loop
+                B[up_bb] = dict(B[up_bb], term={'k': 'goto', 't': B[up_bb]['term']['t']})
     return (nd if nd is not None else d), nd is not None
 
 
@@ -1116,7 +1145,7 @@ def desugar_combinators_dict(F, d):
             pos = new_block([assign(dl, {'k': 'use', 'op': payload(pos_name, pos_vi)})], goto_T)
             neg = call_into(fcb, fkind, fop, [payload('Err', 1)] if is_res else [], dl, T)
         elif name == 'or_else':
-            pos = new_block([assign(dl, {'k': 'use', 'op': {'m': {'l': sp['l'], 'p': []}}})], goto_T)
+            pos = new_block([assign(dl, {'k': 'aggr', 'ak': {'adt': adt, 'variant': pos_name, 'vi': pos_vi}, 'ops': [payload(pos_name, pos_vi)]})], goto_T)
             neg = call_into(fcb, fkind, fop, [payload('Err', 1)] if is_res else [], dl, T)
         elif name == 'and_then':
             pos = call_into(fcb, fkind, fop, [payload(pos_name, pos_vi)], dl, T)
@@ -1136,7 +1165,7 @@ def desugar_combinators_dict(F, d):
             # Some(x) if pred(&x) => Some(x), otherwise None
             keep = new_local('bool')
             rf = new_local('&_')
-            some_b = new_block([assign(dl, {'k': 'use', 'op': {'m': {'l': sp['l'], 'p': []}}})], goto_T)
+            some_b = new_block([assign(dl, {'k': 'aggr', 'ak': {'adt': adt, 'variant': 'Some', 'vi': 1}, 'ops': [payload('Some', 1)]})], goto_T)
             none_b = new_block([assign(dl, {'k': 'aggr', 'ak': {'adt': adt, 'variant': 'None', 'vi': 0}, 'ops': []})], goto_T)
             sw = new_block([], {'k': 'switch', 'op': {'m': {'l': keep, 'p': []}}, 'arms': [['0', none_b]], 'otherwise': some_b})
             pos = call_into(fcb, fkind, fop, [{'m': {'l': rf, 'p': []}}], keep, sw)
